@@ -1,5 +1,28 @@
-//! Conformance harness for property C08, see /verif/DESIGN.md.
+//! Conformance harness for property C08 (subshell isolation), see
+//! /verif/DESIGN.md section 6 "C08" and spec/Subshell.tla.
+//!
+//! `run`  : renders every scenario of the TLC-generated catalogue into a shell
+//!          script, runs it on the simulated OS under explored schedules and
+//!          records `{sc, init, d_before, ch[{d_entry,d_end}], d_after, ...}`
+//!          (flat key/value snapshots and their differences) for validation by
+//!          spec/Trace_Subshell.tla.
+//! `one`  : runs a single scenario (debugging / replay), prints script + record.
+mod scen;
+
 fn main() {
-    eprintln!("yv-c08: not implemented yet");
-    std::process::exit(2);
+    let args: Vec<String> = std::env::args().collect();
+    if args.len() < 2 {
+        eprintln!("usage: yv-c08 <run|one> ...");
+        std::process::exit(2);
+    }
+    let rest = &args[2..];
+    let code = match args[1].as_str() {
+        "run" => scen::run(rest),
+        "one" => scen::one(rest),
+        other => {
+            eprintln!("unknown subcommand {other}");
+            2
+        }
+    };
+    std::process::exit(code);
 }
